@@ -831,8 +831,8 @@ def run(ctx):
     cases_coq, cases_info = [], []
     norm_inputs = set()
     try:
-        n_random = ctx.n(160, 1500)
-        n_sweep = ctx.n(10, 60)
+        n_random = ctx.n(160, 1200)
+        n_sweep = ctx.n(10, 45)
         plan = [("random", i) for i in range(n_random)] + [("sweep", i) for i in range(n_sweep)]
         for mode, idx in plan:
             ids = make_ids(rng)
